@@ -6,28 +6,57 @@
 //	        per-operation observations (OnJoinEvent/OnLeaveEvent, which socket received the
 //	        command, ErrNotExistKey) are compared one by one with the model's run;
 //	reglin  concurrent scripts: one goroutine per connection and per caller with random
-//	        timing; the recorded history (operation, real-time interval, observation) is
-//	        given to the oracle, which searches a linearisation the model explains.
+//	        timing (and, in the child built with the delay overlay, random delays at every
+//	        channel operation of connection.go); the recorded history (operation, real-time
+//	        interval, observation) is given to the oracle, which searches a linearisation
+//	        that the model explains.
 //
 // The direct oracle checks the property itself on the implementation: no two live owners of a
 // key, a refused connection is closed and told so while the first keeps working, leave carries
 // the connection's own key, a freed key can be taken again, commands go to the current owner,
-// a key that is not online fails at once.
+// a key that is not online fails at once, callbacks come once each.
+//
+// Synchronisation is by events, never by sleeping: a terminal learns that the server has
+// finished an operation from what it receives on its own socket (the 0x8001 answer to its
+// message is written after OnJoinEvent returned; the server closes the socket after
+// OnLeaveEvent returned), so "callback missing" is decided by happens-before, not by a timer.
+// The only timer is the stall bound (15 s without progress on loopback), which is confirmed by
+// running the same request again in a fresh server before it is reported.
+//
+// Everything that touches the server runs in a CHILD process (lib/child_conc.go) so that a
+// crash of the server (send on a closed channel ...) is observed and attributed to a script.
 package main
 
 import (
+	"encoding/json"
+	"errors"
 	"fmt"
 	"math/rand"
+	"net"
+	"os"
+	"path/filepath"
 	"sort"
 	"strconv"
 	"strings"
 	"sync"
 	"time"
 
+	"github.com/cuteLittleDevil/go-jt808/service"
+	"github.com/cuteLittleDevil/go-jt808/shared/consts"
+
 	. "verifh/lib"
 )
 
-const cmdID = 0x9102
+const (
+	cmdID      = 0x9102
+	stallAfter = 15 * time.Second
+	cmdTimeout = 20 * time.Second // OverTimeDuration of every command; never fires on a healthy run
+)
+
+const required = "at most one live owner per key; a refused connection is closed and told so, the first is not affected; leave carries the connection's own key and frees only it; a freed key can be taken again; commands go to the current owner; a key that is not online fails at once; one join and one leave callback per connection"
+
+// stall is the panic value of a bounded wait that expired.
+type stall struct{ what string }
 
 // keyFunc of the harness server: phone 99xxx -> invalid; phone 88 -> the empty key; else key = phone.
 func keyOf(phone string) (string, bool) {
@@ -64,53 +93,114 @@ func server() *Srv {
 	return srv
 }
 
-// regTerm: a terminal whose reader answers every platform command with a 0x0001 echo and counts them.
+// ---------------------------------------------------------------- terminals
+
+// regTerm: a terminal that answers every platform command with a 0x0001 echo and records it.
 type regTerm struct {
-	t       *Term
-	idx     int // index of its eventer in the recorder
-	mu      sync.Mutex
-	cmds    int
-	got     []byte // first body byte of every command received (names the caller in concurrent scripts)
-	replies int
-	eof     chan struct{}
-	evSeen  int // callbacks already reported
-	closed  bool
-	phone   string // phone of the first message it sent
+	t   *Term
+	idx int // index of its eventer in the recorder
+	mu  sync.Mutex
+	sig chan struct{}
+	// under mu
+	replies int   // 0x8001 answers received
+	got     []int // tag (first two body bytes) of every command received
+	eof     bool  // the server closed the socket (or we did)
+	// owned by the goroutine that runs the connection's program
+	evSeen int // callbacks already consumed
+	phone  string
+	closed bool // the script ended it
+	joined bool // OnJoinEvent(.., nil) consumed
 }
 
-func newRegTerm(s *Srv) *regTerm {
-	t, idx := s.Dial("1")
-	r := &regTerm{t: t, idx: idx, eof: make(chan struct{})}
+var dialMu sync.Mutex
+
+// dial connects one terminal; accept order = recorder index order because dials are serialised.
+func dial(s *Srv, stamp func() int64) (r *regTerm, inv, resp int64) {
+	dialMu.Lock()
+	defer dialMu.Unlock()
+	inv = stamp()
+	n := s.Rec.NConns()
+	t, err := DialTerm(s.Addr, "1")
+	if err != nil {
+		panic(stall{"dial: " + err.Error()})
+	}
+	if !s.Rec.WaitConns(n+1, stallAfter) {
+		panic(stall{"connection not accepted by the server"})
+	}
+	r = &regTerm{t: t, idx: n, sig: make(chan struct{}, 1)}
 	go func() {
-		defer close(r.eof)
 		for f := range t.Frames {
 			if f.Bad != "" {
 				continue
 			}
+			r.mu.Lock()
 			if f.ID == 0x8001 {
-				r.mu.Lock()
 				r.replies++
 				r.mu.Unlock()
+				r.ping()
 				continue
 			}
-			r.mu.Lock()
-			r.cmds++
-			if len(f.Body) > 0 {
-				r.got = append(r.got, f.Body[0])
+			tag := -1
+			if len(f.Body) >= 2 {
+				tag = int(f.Body[0]) | int(f.Body[1])<<8
 			}
+			r.got = append(r.got, tag)
 			ph := r.phone
 			r.mu.Unlock()
 			t.SendAs(ph, 0x0001, RespBody(0x0001, f.Serial, f.ID))
 		}
+		r.mu.Lock()
+		r.eof = true
+		r.mu.Unlock()
+		r.ping()
 	}()
-	return r
+	return r, inv, stamp()
 }
 
-func (r *regTerm) ncmds() int    { r.mu.Lock(); defer r.mu.Unlock(); return r.cmds }
-func (r *regTerm) nreplies() int { r.mu.Lock(); defer r.mu.Unlock(); return r.replies }
+func (r *regTerm) ping() {
+	select {
+	case r.sig <- struct{}{}:
+	default:
+	}
+}
 
-// recvBy: the connection that received the command whose body starts with tag (-1 none, -2 several).
-func recvBy(conns []*regTerm, tag byte) int {
+// waitFor blocks until pred (evaluated under r.mu) holds; a stall panics.
+func (r *regTerm) waitFor(what string, pred func() bool) {
+	deadline := time.NewTimer(stallAfter)
+	defer deadline.Stop()
+	for {
+		r.mu.Lock()
+		ok := pred()
+		r.mu.Unlock()
+		if ok {
+			return
+		}
+		select {
+		case <-r.sig:
+		case <-deadline.C:
+			panic(stall{what})
+		}
+	}
+}
+
+func (r *regTerm) isEOF() bool   { r.mu.Lock(); defer r.mu.Unlock(); return r.eof }
+func (r *regTerm) nreplies() int { r.mu.Lock(); defer r.mu.Unlock(); return r.replies }
+func (r *regTerm) setPhone(p string) {
+	r.mu.Lock()
+	r.phone = p
+	r.mu.Unlock()
+}
+
+// heartbeat sends one 0x0002 and waits for its answer or for the server closing the socket.
+func (r *regTerm) heartbeat(phone, what string) (answered bool) {
+	before := r.nreplies()
+	r.t.SendAs(phone, 0x0002, nil)
+	r.waitFor(what, func() bool { return r.replies > before || r.eof })
+	return r.nreplies() > before
+}
+
+// recvBy: the connection that received the command with this tag (-1 none, -2 several).
+func recvBy(conns []*regTerm, tag int) int {
 	got := -1
 	for j, r := range conns {
 		r.mu.Lock()
@@ -128,8 +218,6 @@ func recvBy(conns []*regTerm, tag byte) int {
 	return got
 }
 
-func newRand(seed int64) *rand.Rand { return rand.New(rand.NewSource(seed)) }
-
 func evTok(c int, e Ev) string {
 	if e.Kind == "join" {
 		code := map[string]string{"": "0", "exist": "1", "invalid": "2"}[e.Err]
@@ -141,6 +229,97 @@ func evTok(c int, e Ev) string {
 	return fmt.Sprintf("l:%d:%s", c, keyNum(e.Key))
 }
 
+// take consumes the next callback of connection c.  wait=false: the caller has already seen on the
+// terminal's socket something the server did AFTER the callback returned, so the callback is either
+// recorded or was never made.  wait=true (abrupt close: nothing to see on the socket): bounded wait.
+func take(s *Srv, r *regTerm, c int, wait bool) string {
+	var evs []Ev
+	if wait {
+		var ok bool
+		evs, ok = s.Rec.WaitEvents(r.idx, r.evSeen+1, stallAfter)
+		if !ok {
+			panic(stall{fmt.Sprintf("no callback for connection %d within %v of closing its socket", c, stallAfter)})
+		}
+	} else {
+		evs = s.Rec.Events(r.idx)
+	}
+	if len(evs) <= r.evSeen {
+		return fmt.Sprintf("missing-callback:%d", c)
+	}
+	e := evs[r.evSeen]
+	r.evSeen++
+	if e.Kind == "join" && e.Err == "" {
+		r.joined = true
+	}
+	return evTok(c, e)
+}
+
+// endConn ends connection c in the given way and returns its leave observation.
+//
+//	s   half-close (FIN), wait until the server has closed its side (after OnLeaveEvent)
+//	sc  full close, sr  reset: wait for the callback itself (bounded)
+func endConn(s *Srv, r *regTerm, c int, how string) string {
+	r.closed = true
+	if r.isEOF() { // the server closed first (refused connection): its leave callback is there
+		o := take(s, r, c, false)
+		r.t.Close()
+		return o
+	}
+	switch how {
+	case "sc":
+		r.t.Close()
+		return take(s, r, c, true)
+	case "sr":
+		r.t.Reset()
+		return take(s, r, c, true)
+	}
+	r.t.Conn.CloseWrite()
+	r.waitFor(fmt.Sprintf("server did not close connection %d within %v of the terminal's FIN", c, stallAfter),
+		func() bool { return r.eof })
+	o := take(s, r, c, false)
+	r.t.Close()
+	return o
+}
+
+// ---------------------------------------------------------------- callers
+
+type callRes struct {
+	kind string // resp | timeout | wfail | noexist (manager: key not online) | stopped (connection ended with the command pending) | other
+	dur  time.Duration
+}
+
+func call(s *Srv, key string, tag int) callRes {
+	ch := make(chan callRes, 1)
+	go func() {
+		t0 := time.Now()
+		m := s.G.SendActiveMessage(service.NewActiveMessage(key, consts.JT808CommandType(cmdID),
+			[]byte{byte(tag), byte(tag >> 8), 0, 0}, cmdTimeout))
+		r := callRes{kind: "other", dur: time.Since(t0)}
+		if m != nil {
+			err := m.ExtensionFields.Err
+			switch {
+			case err == nil:
+				r.kind = "resp"
+			case errors.Is(err, service.ErrWriteDataOverTime):
+				r.kind = "timeout"
+			case errors.Is(err, service.ErrWriteDataFail):
+				r.kind = "wfail"
+			case errors.Is(err, service.ErrNotExistKey) && errors.Is(err, net.ErrClosed):
+				r.kind = "stopped"
+			case errors.Is(err, service.ErrNotExistKey):
+				r.kind = "noexist"
+			}
+		}
+		ch <- r
+	}()
+	select {
+	case r := <-ch:
+		return r
+	case <-time.After(cmdTimeout + stallAfter):
+		panic(stall{fmt.Sprintf("SendActiveMessage for key %q did not return within %v", key, cmdTimeout+stallAfter)})
+	}
+}
+
 // ---------------------------------------------------------------- sequential scripts
 
 type seqRun struct {
@@ -149,184 +328,140 @@ type seqRun struct {
 	ncall int
 	notes []string // direct-oracle complaints
 	// what the script itself knows (literal bookkeeping for the direct oracle, not the model)
-	holder map[string]int // key -> connection that joined ok and has not been stopped by the script
+	holder map[string]int // key -> connection that joined ok and has not been ended by the script
 }
 
 func newSeqRun() *seqRun { return &seqRun{s: server(), holder: map[string]int{}} }
 
 func (q *seqRun) note(f string, a ...any) { q.notes = append(q.notes, fmt.Sprintf(f, a...)) }
 
-// nextEvents waits for n more callbacks of connection c and returns them as tokens.
-func (q *seqRun) nextEvents(c, n int, d time.Duration) []string {
-	r := q.conns[c]
-	evs, ok := q.s.Rec.WaitEvents(r.idx, r.evSeen+n, d)
-	var out []string
-	for _, e := range evs[r.evSeen:] {
-		out = append(out, evTok(c, e))
-	}
-	r.evSeen = len(evs)
-	if !ok {
-		out = append(out, fmt.Sprintf("missing-callback:%d", c))
-	}
-	return out
-}
+func nostamp() int64 { return 0 }
 
 func (q *seqRun) exec(tok string) []string {
 	p := strings.Split(tok, ":")
 	num := func(i int) int { n, _ := strconv.Atoi(p[i]); return n }
 	switch p[0] {
 	case "c":
-		q.conns = append(q.conns, newRegTerm(q.s))
+		r, _, _ := dial(q.s, nostamp)
+		q.conns = append(q.conns, r)
 		return nil
-	case "f", "b":
+	case "f", "b", "m":
 		c := num(1)
-		if c >= len(q.conns) || q.conns[c].closed {
+		if c >= len(q.conns) || q.conns[c].closed || q.conns[c].isEOF() {
 			return nil
 		}
 		r := q.conns[c]
+		if r.joined { // any later message, with whatever phone: no manager operation, the connection stays up
+			phone := r.phone
+			if p[0] == "f" {
+				phone = phoneOfKey(num(2))
+			}
+			if !r.heartbeat(phone, fmt.Sprintf("joined connection %d: heartbeat neither answered nor closed", c)) {
+				q.note("joined connection %d no longer answers heartbeats (closed by the server)", c)
+			}
+			return nil
+		}
+		if p[0] == "m" {
+			return nil
+		}
 		phone := "99" + strconv.Itoa(c)
 		if p[0] == "f" {
 			phone = phoneOfKey(num(2))
 		}
-		joined := false
-		for _, e := range q.s.Rec.Events(r.idx) {
-			if e.Kind == "join" && e.Err == "" {
-				joined = true
-			}
-		}
-		if joined { // a later message with whatever phone: no manager operation, connection must stay up
-			before := r.nreplies()
-			r.t.SendAs(phone, 0x0002, nil)
-			waitUntil(2*time.Second, func() bool { return r.nreplies() > before })
-			if r.nreplies() == before {
-				q.note("joined connection %d no longer answers heartbeats", c)
-			}
-			return q.nextEvents(c, 0, 0)
-		}
-		r.mu.Lock()
-		r.phone = phone
-		r.mu.Unlock()
-		r.t.SendAs(phone, 0x0002, nil)
-		out := q.nextEvents(c, 1, 2*time.Second)
-		if len(out) == 1 && p[0] == "f" {
+		r.setPhone(phone)
+		answered := r.heartbeat(phone, fmt.Sprintf("first message of connection %d neither answered nor refused", c))
+		o := take(q.s, r, c, false)
+		if p[0] == "f" {
 			key, _ := keyOf(phone)
 			switch {
-			case strings.HasSuffix(out[0], ":0"):
+			case strings.HasPrefix(o, "j:") && strings.HasSuffix(o, ":0"):
 				if h, ok := q.holder[key]; ok {
 					q.note("connection %d joined key %q while connection %d still holds it", c, key, h)
 				}
 				q.holder[key] = c
-			case strings.HasSuffix(out[0], ":1"):
+				if !answered {
+					q.note("connection %d joined key %q but the server closed it", c, key)
+				}
+			case strings.HasPrefix(o, "j:") && strings.HasSuffix(o, ":1"):
 				if _, ok := q.holder[key]; !ok {
 					q.note("connection %d refused for key %q although no connection holds it", c, key)
 				}
-				select { // the refused connection must be closed by the server
-				case <-r.eof:
-				case <-time.After(2 * time.Second):
-					q.note("refused connection %d was not closed", c)
+				if answered {
+					q.note("refused connection %d was answered instead of closed", c)
 				}
 			}
 		}
-		return out
-	case "m":
+		return []string{o}
+	case "s", "sc", "sr":
 		c := num(1)
 		if c >= len(q.conns) || q.conns[c].closed {
 			return nil
 		}
-		r := q.conns[c]
-		joined := false
-		for _, e := range q.s.Rec.Events(r.idx) {
-			if e.Kind == "join" && e.Err == "" {
-				joined = true
-			}
-		}
-		if !joined {
-			return nil
-		}
-		before := r.nreplies()
-		r.t.SendAs(r.phone, 0x0002, nil)
-		waitUntil(2*time.Second, func() bool { return r.nreplies() > before })
-		if r.nreplies() == before {
-			q.note("joined connection %d no longer answers heartbeats", c)
-		}
-		return q.nextEvents(c, 0, 0)
-	case "s":
-		c := num(1)
-		if c >= len(q.conns) || q.conns[c].closed {
-			return nil
-		}
-		r := q.conns[c]
-		r.closed = true
-		r.t.Close()
-		out := q.nextEvents(c, 1, 2*time.Second)
+		o := endConn(q.s, q.conns[c], c, p[0])
 		for k, h := range q.holder {
 			if h == c {
 				delete(q.holder, k)
-				if len(out) != 1 || out[0] != fmt.Sprintf("l:%d:%s", c, keyNum(k)) {
-					q.note("owner %d of key %q ended: leave callback %v", c, k, out)
+				if o != fmt.Sprintf("l:%d:%s", c, keyNum(k)) {
+					q.note("owner %d of key %q ended: leave callback %s", c, k, o)
 				}
 			}
 		}
-		return out
+		return []string{o}
 	case "w":
 		k := num(1)
 		i := q.ncall
 		q.ncall++
 		key, _ := keyOf(phoneOfKey(k))
-		before := make([]int, len(q.conns))
-		for j, r := range q.conns {
-			before[j] = r.ncmds()
-		}
-		res := Await(q.s.Call(key, cmdID, []byte{1, 0, 0, 0}, 400*time.Millisecond), 3*time.Second)
-		got := -1
-		for j, r := range q.conns {
-			if r.ncmds() > before[j] {
-				if got >= 0 {
-					q.note("command for key %q written to two connections %d and %d", key, got, j)
-				}
-				got = j
-			}
-		}
+		res := call(q.s, key, i)
+		got := recvBy(q.conns, i)
 		h, online := q.holder[key]
 		switch {
-		case res.Kind == "noexist" && got < 0:
-			if online {
-				q.note("key %q held by connection %d but the call returned ErrNotExistKey", key, h)
-			}
-			if res.Dur > 300*time.Millisecond {
-				q.note("ErrNotExistKey for key %q only after %v", key, res.Dur)
-			}
-			return []string{fmt.Sprintf("n:%d", i)}
+		case got == -2:
+			q.note("command for key %q written to more than one connection", key)
+			return []string{fmt.Sprintf("?:%d:several", i)}
 		case got >= 0:
 			if !online || h != got {
 				q.note("command for key %q went to connection %d, holder %v/%v", key, got, h, online)
 			}
-			if res.Kind != "resp" {
-				q.note("command for key %q answered by connection %d but the call returned %s", key, got, res.Kind)
+			if res.kind != "resp" {
+				q.note("command for key %q answered by connection %d but the call returned %s", key, got, res.kind)
 			}
 			return []string{fmt.Sprintf("r:%d:%d", i, got)}
+		case res.kind == "noexist":
+			if online {
+				q.note("key %q held by connection %d but the call returned ErrNotExistKey", key, h)
+			}
+			if res.dur >= cmdTimeout {
+				q.note("ErrNotExistKey for key %q only after %v (the command's own timeout)", key, res.dur)
+			}
+			return []string{fmt.Sprintf("n:%d", i)}
 		}
-		q.note("call for key %q: result %s, no connection received the command", key, res.Kind)
-		return []string{fmt.Sprintf("?:%d:%s", i, res.Kind)}
+		q.note("call for key %q: result %s, no connection received the command", key, res.kind)
+		return []string{fmt.Sprintf("?:%d:%s", i, res.kind)}
 	}
 	return nil
 }
 
-// finish closes what is still open so that the shared server's registry is empty again.
-func (q *seqRun) finish() {
+// finish ends what is still open (the shared server's registry is empty again afterwards), reports
+// callbacks nobody asked for and checks that every connection's callbacks are one legal life.
+func (q *seqRun) finish() []string {
+	var extra []string
 	for c, r := range q.conns {
 		if !r.closed {
-			r.closed = true
-			r.t.Close()
-			q.nextEvents(c, 1, 2*time.Second)
+			endConn(q.s, r, c, "s")
 		}
 	}
-	// every connection: its callbacks must be one legal life
 	for c, r := range q.conns {
-		if msg := lifeShape(q.s.Rec.Events(r.idx)); msg != "" {
+		evs := q.s.Rec.Events(r.idx)
+		for _, e := range evs[r.evSeen:] {
+			extra = append(extra, "extra-"+evTok(c, e))
+		}
+		r.evSeen = len(evs)
+		if msg := lifeShape(evs); msg != "" {
 			q.note("connection %d callbacks: %s", c, msg)
 		}
 	}
+	return extra
 }
 
 // lifeShape: invalid* then (join ok k, leave k | join exist, leave "" | leave ""), nothing else.
@@ -348,79 +483,226 @@ func lifeShape(evs []Ev) string {
 	case len(rest) == 2 && rest[0].Kind == "join" && rest[0].Err == "" && rest[1].Kind == "leave" && rest[1].Key == rest[0].Key:
 	case len(rest) == 2 && rest[0].Kind == "join" && rest[0].Err == "exist" && rest[1].Kind == "leave" && rest[1].Key == "":
 	default:
-		return desc()
+		return "[" + desc() + "]"
 	}
 	return ""
 }
 
-func waitUntil(d time.Duration, f func() bool) bool {
-	end := time.Now().Add(d)
-	for !f() {
-		if time.Now().After(end) {
-			return false
+// opResult is what the child reports for one script / scenario.
+type opResult struct {
+	Req      string   `json:"req"`   // the oracle request (what the model is asked)
+	Ans      string   `json:"ans"`   // the implementation's answer to it
+	Notes    []string `json:"notes"` // direct-oracle complaints
+	Counts   []string `json:"counts"`
+	NT       bool     `json:"nt"`
+	Stalled  string   `json:"stalled"`
+	EmptyKey bool     `json:"emptykey"`
+}
+
+func guard(res *opResult, f func()) {
+	defer func() {
+		if x := recover(); x != nil {
+			if st, ok := x.(stall); ok {
+				res.Stalled = st.what
+				return
+			}
+			panic(x)
 		}
-		time.Sleep(200 * time.Microsecond)
-	}
-	return true
+	}()
+	f()
 }
 
-func runSeq(tokens []string) (string, []string) {
-	q := newSeqRun()
-	var obs []string
-	for _, t := range tokens {
-		obs = append(obs, q.exec(t)...)
-	}
-	q.finish()
-	ans := "ok"
+func seqResult(toks, obs []string, q *seqRun, emptyKey bool, what string) opResult {
+	res := opResult{Req: "regseq " + strings.Join(toks, " "), Ans: "ok", Notes: q.notes, EmptyKey: emptyKey}
+	dup, rejoin, send := false, false, false
+	left := map[string]bool{}
 	for _, o := range obs {
-		ans += " " + o
+		res.Ans += " " + o
+		p := strings.Split(o, ":")
+		switch {
+		case p[0] == "j" && len(p) == 4 && p[3] == "1":
+			dup = true
+		case p[0] == "l" && len(p) == 3:
+			left[p[2]] = true
+		case p[0] == "j" && len(p) == 4 && p[3] == "0" && left[p[2]]:
+			rejoin = true
+		case p[0] == "r" || p[0] == "n":
+			send = true
+		}
 	}
-	return ans, q.notes
+	res.NT = dup || rejoin || send
+	res.Counts = append(res.Counts, what+":ops="+strconv.Itoa(len(toks)/8*8)+"+")
+	if dup {
+		res.Counts = append(res.Counts, "seq:duplicate-refused")
+	}
+	if rejoin {
+		res.Counts = append(res.Counts, "seq:rejoin-after-leave")
+	}
+	if emptyKey {
+		res.Counts = append(res.Counts, "seq:with-empty-key")
+	}
+	return res
 }
 
-// ---------------------------------------------------------------- concurrent scripts
+func runSeq(toks []string) (res opResult) {
+	guard(&res, func() {
+		q := newSeqRun()
+		var obs []string
+		empty := false
+		for _, t := range toks {
+			obs = append(obs, q.exec(t)...)
+			if strings.HasPrefix(t, "f:") && strings.HasSuffix(t, ":0") {
+				empty = true
+			}
+		}
+		obs = append(obs, q.finish()...)
+		res = seqResult(toks, obs, q, empty, "corpus")
+	})
+	if res.Req == "" {
+		res.Req = "regseq " + strings.Join(toks, " ")
+	}
+	return res
+}
+
+// runAdapt: a random script generated while it runs (a refused connection is ended at once, as in the
+// code, where the reader of a refused connection returns immediately).
+func runAdapt(seed int64, steps, nk int, emptyKey bool) (res opResult) {
+	var toks []string
+	guard(&res, func() {
+		rng := rand.New(rand.NewSource(seed))
+		q := newSeqRun()
+		var obs []string
+		do := func(t string) []string {
+			toks = append(toks, t)
+			o := q.exec(t)
+			obs = append(obs, o...)
+			return o
+		}
+		stops := []string{"s", "s", "s", "sc", "sr"}
+		for i := 0; i < steps; i++ {
+			nc := len(q.conns)
+			key := 1 + rng.Intn(nk)
+			if emptyKey && rng.Intn(3) == 0 {
+				key = 0
+			}
+			x := rng.Intn(100)
+			switch {
+			case nc == 0 || (x < 18 && nc < 6):
+				do("c")
+			case x < 50:
+				cn := rng.Intn(nc)
+				o := do(fmt.Sprintf("f:%d:%d", cn, key))
+				if len(o) == 1 && strings.HasSuffix(o[0], ":1") {
+					do(fmt.Sprintf("s:%d", cn))
+				}
+			case x < 56:
+				do(fmt.Sprintf("b:%d", rng.Intn(nc)))
+			case x < 64:
+				do(fmt.Sprintf("m:%d", rng.Intn(nc)))
+			case x < 80:
+				do(fmt.Sprintf("%s:%d", stops[rng.Intn(len(stops))], rng.Intn(nc)))
+			default:
+				do(fmt.Sprintf("w:%d", key))
+			}
+		}
+		obs = append(obs, q.finish()...)
+		res = seqResult(toks, obs, q, emptyKey, "random")
+	})
+	if res.Req == "" {
+		res.Req = "regseq " + strings.Join(toks, " ") + " (stalled here)"
+	}
+	return res
+}
+
+// ---------------------------------------------------------------- concurrent scenarios
 
 type hop struct {
 	tok       string
-	inv, resp int64 // microseconds since the start of the scenario
+	inv, resp int64 // nanoseconds since the start of the scenario
 	obs       string
 }
 
-type concResult struct {
-	hist  []hop
-	notes []string
+// life of one connection as the scenario itself knows it (for the direct oracle)
+type window struct {
+	key          string
+	ok, refused  bool
+	fInv, fResp  int64 // the joining first message: sent, outcome seen
+	sInv, sResp  int64 // the end: initiated, leave callback seen
+	done, closed bool  // closed: a refused connection was closed by the server
 }
 
-// runConc: nconn connections are dialled first (Connect operations, sequential), then every
-// connection runs its own little life and ncallers callers fire at random keys, all concurrently.
-func runConc(seed int64, nconn, nkeys, ncallers int) concResult {
+func runConc(seed int64, nconn, nkeys, ncallers int) (res opResult) {
 	s := server()
-	rng := newRand(seed)
-	var res concResult
+	rng := rand.New(rand.NewSource(seed))
 	var mu sync.Mutex
+	var hist []hop
+	var notes []string
+	stalled := ""
 	t0 := time.Now()
-	now := func() int64 { return time.Since(t0).Microseconds() }
-	add := func(h hop) { mu.Lock(); res.hist = append(res.hist, h); mu.Unlock() }
-	note := func(f string, a ...any) {
-		mu.Lock()
-		res.notes = append(res.notes, fmt.Sprintf(f, a...))
-		mu.Unlock()
+	now := func() int64 { return time.Since(t0).Nanoseconds() }
+	add := func(h hop) { mu.Lock(); hist = append(hist, h); mu.Unlock() }
+	note := func(f string, a ...any) { mu.Lock(); notes = append(notes, fmt.Sprintf(f, a...)); mu.Unlock() }
+	guarded := func(f func()) {
+		defer func() {
+			if x := recover(); x != nil {
+				if st, ok := x.(stall); ok {
+					mu.Lock()
+					if stalled == "" {
+						stalled = st.what
+					}
+					mu.Unlock()
+					return
+				}
+				panic(x)
+			}
+		}()
+		f()
 	}
-	conns := make([]*regTerm, nconn)
-	for i := range conns {
-		a := now()
-		conns[i] = newRegTerm(s)
-		add(hop{tok: "c", inv: a, resp: now(), obs: "-"})
+	var conns []*regTerm
+	var wins []*window
+	connect := func() (int, *regTerm, *window) {
+		var c int
+		r, a, b := dial(s, now) // serialised: the model's connection index is the accept order
+		mu.Lock()
+		c = len(conns)
+		conns = append(conns, r)
+		w := &window{}
+		wins = append(wins, w)
+		hist = append(hist, hop{tok: "c", inv: a, resp: b, obs: "-"})
+		mu.Unlock()
+		return c, r, w
 	}
 	type plan struct {
 		key             int
 		d1, d2          time.Duration
 		bad, join, more bool
+		stop            string
+		again           bool
 	}
-	plans := make([]plan, nconn)
-	for i := range plans {
-		plans[i] = plan{key: 1 + rng.Intn(nkeys), d1: time.Duration(rng.Intn(1500)) * time.Microsecond,
-			d2: time.Duration(rng.Intn(2500)) * time.Microsecond, bad: rng.Intn(6) == 0, join: rng.Intn(8) != 0, more: rng.Intn(2) == 0}
+	stops := []string{"s", "s", "sc", "sr"}
+	mkplan := func(key int) plan {
+		return plan{key: key, d1: time.Duration(rng.Intn(1200)) * time.Microsecond,
+			d2: time.Duration(rng.Intn(2000)) * time.Microsecond, bad: rng.Intn(6) == 0, join: rng.Intn(8) != 0,
+			more: rng.Intn(2) == 0, stop: stops[rng.Intn(len(stops))], again: rng.Intn(3) == 0}
+	}
+	type job struct {
+		c int
+		r *regTerm
+		w *window
+		p plan
+	}
+	var jobs []job
+	guarded(func() {
+		for i := 0; i < nconn; i++ {
+			c, r, w := connect()
+			jobs = append(jobs, job{c, r, w, mkplan(1 + rng.Intn(nkeys))})
+		}
+	})
+	// second lives are planned up front so that the plan does not depend on the schedule
+	second := make([]plan, len(jobs))
+	for i := range second {
+		second[i] = mkplan(jobs[i].p.key)
+		second[i].again = false
 	}
 	type cplan struct {
 		key int
@@ -428,150 +710,207 @@ func runConc(seed int64, nconn, nkeys, ncallers int) concResult {
 	}
 	cplans := make([]cplan, ncallers)
 	for i := range cplans {
-		cplans[i] = cplan{key: 1 + rng.Intn(nkeys), d: time.Duration(rng.Intn(3500)) * time.Microsecond}
+		cplans[i] = cplan{key: 1 + rng.Intn(nkeys), d: time.Duration(rng.Intn(4000)) * time.Microsecond}
 	}
-	// certain-ownership windows [join callback seen, close initiated] per connection, for the direct oracle
-	type window struct {
-		key         string
-		from, until int64
-		sent, left  int64
-		ok          bool
-	}
-	wins := make([]window, nconn)
-	var wg sync.WaitGroup
-	for i := range conns {
-		wg.Add(1)
-		go func(c int) {
-			defer wg.Done()
-			r, p := conns[c], plans[c]
-			q := &seqRun{s: s, conns: conns, holder: map[string]int{}}
-			time.Sleep(p.d1)
-			if p.bad {
-				a := now()
-				r.mu.Lock()
-				r.phone = "99" + strconv.Itoa(c)
-				r.mu.Unlock()
-				r.t.SendAs(r.phone, 0x0002, nil)
-				o := q.nextEvents(c, 1, 2*time.Second)
-				add(hop{tok: fmt.Sprintf("b:%d", c), inv: a, resp: now(), obs: strings.Join(o, "+")})
-			}
-			refused := false
-			var fInv int64
-			if p.join {
-				a := now()
-				fInv = a
-				phone := phoneOfKey(p.key)
-				r.mu.Lock()
-				r.phone = phone
-				r.mu.Unlock()
-				r.t.SendAs(phone, 0x0002, nil)
-				o := q.nextEvents(c, 1, 2*time.Second)
-				b := now()
-				add(hop{tok: fmt.Sprintf("f:%d:%d", c, p.key), inv: a, resp: b, obs: strings.Join(o, "+")})
-				if len(o) == 1 && strings.HasSuffix(o[0], ":0") {
-					wins[c] = window{key: phone, from: b, sent: a, ok: true}
-				}
-				if len(o) == 1 && strings.HasSuffix(o[0], ":1") {
-					refused = true
-					select {
-					case <-r.eof:
-					case <-time.After(2 * time.Second):
-						note("refused connection %d was not closed", c)
-					}
-				}
-			}
-			if p.more && !refused {
-				time.Sleep(p.d2 / 2)
-				r.t.SendAs(r.phone, 0x0002, nil)
-			}
-			time.Sleep(p.d2)
+	life := func(c int, r *regTerm, w *window, p plan) {
+		time.Sleep(p.d1)
+		if p.bad {
 			a := now()
-			if refused {
-				a = fInv // the automatic leave may have happened any time after the refused join was sent
-			}
-			wins[c].until = a
-			r.closed = true
-			r.t.Close()
-			o := q.nextEvents(c, 1, 2*time.Second)
+			phone := "99" + strconv.Itoa(c)
+			r.setPhone(phone)
+			r.heartbeat(phone, fmt.Sprintf("invalid-key message of connection %d neither answered nor closed", c))
+			o := take(s, r, c, false)
+			add(hop{tok: fmt.Sprintf("b:%d", c), inv: a, resp: now(), obs: o})
+		}
+		if p.join {
+			a := now()
+			phone := phoneOfKey(p.key)
+			r.setPhone(phone)
+			answered := r.heartbeat(phone, fmt.Sprintf("first message of connection %d neither answered nor refused", c))
+			o := take(s, r, c, false)
 			b := now()
-			wins[c].left = b
-			add(hop{tok: fmt.Sprintf("s:%d", c), inv: a, resp: b, obs: strings.Join(o, "+")})
-		}(i)
+			add(hop{tok: fmt.Sprintf("f:%d:%d", c, p.key), inv: a, resp: b, obs: o})
+			mu.Lock()
+			w.key, w.fInv, w.fResp = phone, a, b
+			switch {
+			case strings.HasPrefix(o, "j:") && strings.HasSuffix(o, ":0"):
+				w.ok = true
+			case strings.HasPrefix(o, "j:") && strings.HasSuffix(o, ":1"):
+				w.refused = true
+				w.closed = !answered
+			}
+			mu.Unlock()
+			if w.ok && !answered {
+				note("connection %d joined key %s but the server closed it", c, phone)
+			}
+		}
+		if p.more && r.joined && !r.isEOF() {
+			time.Sleep(p.d2 / 2)
+			a := now()
+			if !r.heartbeat(r.phone, fmt.Sprintf("joined connection %d: heartbeat neither answered nor closed", c)) {
+				note("joined connection %d no longer answers heartbeats (closed by the server)", c)
+			}
+			add(hop{tok: fmt.Sprintf("m:%d", c), inv: a, resp: now(), obs: "-"})
+		}
+		time.Sleep(p.d2)
+		a := now()
+		if w.refused {
+			a = w.fInv // the reader of a refused connection leaves by itself, any time after the message was sent
+		}
+		o := endConn(s, r, c, p.stop)
+		b := now()
+		mu.Lock()
+		w.sInv, w.sResp, w.done = a, b, true
+		mu.Unlock()
+		add(hop{tok: fmt.Sprintf("%s:%d", p.stop, c), inv: a, resp: b, obs: o})
+	}
+	var wg sync.WaitGroup
+	for i, j := range jobs {
+		wg.Add(1)
+		go func(i int, j job) {
+			defer wg.Done()
+			guarded(func() {
+				life(j.c, j.r, j.w, j.p)
+				if j.p.again { // reconnect: a new connection asks for the same key
+					c, r, w := connect()
+					life(c, r, w, second[i])
+				}
+			})
+		}(i, j)
 	}
 	type sendRec struct {
 		key       string
 		inv, resp int64
-		got       int
 		kind      string
+		dur       time.Duration
+		done      bool
 	}
 	sends := make([]sendRec, ncallers)
 	for i := range cplans {
 		wg.Add(1)
 		go func(i int) {
 			defer wg.Done()
-			p := cplans[i]
-			time.Sleep(p.d)
-			key := phoneOfKey(p.key)
-			a := now()
-			r := Await(s.Call(key, cmdID, []byte{byte(i), 0, 0, 0}, 300*time.Millisecond), 3*time.Second)
-			b := now()
-			sends[i] = sendRec{key: key, inv: a, resp: b, got: -1, kind: r.Kind}
-			if r.Kind == "hang" {
-				note("SendActiveMessage for key %s did not return within 3s", key)
-			}
+			guarded(func() {
+				p := cplans[i]
+				time.Sleep(p.d)
+				key := phoneOfKey(p.key)
+				a := now()
+				r := call(s, key, i)
+				sends[i] = sendRec{key: key, inv: a, resp: now(), kind: r.kind, dur: r.dur, done: true}
+			})
 		}(i)
 	}
 	wg.Wait()
-	// which connection received which command: the command body's first byte names the caller;
-	// the responder only counts, so derive "routed to" from counts when unambiguous: one
-	// command per caller and body[0] = caller is recorded by recvBy below.
-	for i := range sends {
-		sends[i].got = recvBy(conns, byte(i))
-		sr := sends[i]
-		if sr.got == -2 {
-			note("command of caller %d for key %s was written to more than one connection", i, sr.key)
-		}
-		obs := "x" // noexist: either never online, or handed to a connection that stopped before writing it
-		if sr.got >= 0 {
-			obs = fmt.Sprintf("r:*:%d", sr.got)
-		}
-		add(hop{tok: fmt.Sprintf("w:%s", keyNum(sr.key)), inv: sr.inv, resp: sr.resp, obs: obs})
-		// direct oracle: routing against certain/possible ownership windows
-		if sr.got >= 0 {
-			w := wins[sr.got]
-			if !w.ok || w.key != sr.key {
-				note("command for key %s was written to connection %d which never joined with it", sr.key, sr.got)
-			} else if sr.inv > w.left || sr.resp < w.sent {
-				note("command for key %s [%d,%d] written to connection %d outside its life [%d,%d]", sr.key, sr.inv, sr.resp, sr.got, w.sent, w.left)
+	dup := false
+	if stalled == "" {
+		for i, sr := range sends {
+			if !sr.done {
+				continue
 			}
-			if sr.kind != "resp" && sr.kind != "noexist" && sr.kind != "timeout" {
-				note("caller for key %s got %s", sr.key, sr.kind)
+			got := recvBy(conns, i)
+			obs := ""
+			switch {
+			case got == -2:
+				note("command of caller %d for key %s was written to more than one connection", i, sr.key)
+				obs = "?several"
+			case got >= 0:
+				obs = fmt.Sprintf("r:*:%d", got)
+				w := wins[got]
+				if !w.ok || w.key != sr.key {
+					note("command for key %s was written to connection %d which never joined with it", sr.key, got)
+				} else if sr.inv > w.sResp || sr.resp < w.fInv {
+					note("command for key %s [%d,%d] written to connection %d outside its life [%d,%d]", sr.key, sr.inv, sr.resp, got, w.fInv, w.sResp)
+				}
+			case sr.kind == "noexist": // the manager found no session
+				obs = "n:*"
+				for c, w := range wins {
+					if w.ok && w.done && w.key == sr.key && w.fResp < sr.inv && sr.resp < w.sInv {
+						note("key %s was held by connection %d during the whole call [%d,%d] but it returned ErrNotExistKey", sr.key, c, sr.inv, sr.resp)
+					}
+				}
+				if sr.dur >= cmdTimeout {
+					note("ErrNotExistKey for key %s only after %v (the command's own timeout)", sr.key, sr.dur)
+				}
+			case sr.kind == "stopped" || sr.kind == "wfail" || sr.kind == "timeout":
+				// handed to a connection that ended before its terminal read the command
+				obs = "r:*:*"
+				possible := false
+				for _, w := range wins {
+					if w.ok && w.key == sr.key && !(sr.inv > w.sResp || sr.resp < w.fInv) {
+						possible = true
+					}
+				}
+				if !possible {
+					note("call for key %s returned %s although no connection held the key at any time during the call", sr.key, sr.kind)
+				}
+			default:
+				note("caller for key %s got %s and no connection received the command", sr.key, sr.kind)
+				obs = "?" + sr.kind
 			}
-		} else if sr.kind == "noexist" {
-			for c, w := range wins {
-				if w.ok && w.key == sr.key && w.from < sr.inv && sr.resp < w.until {
-					note("key %s was held by connection %d during the whole call [%d,%d] but it returned ErrNotExistKey", sr.key, c, sr.inv, sr.resp)
+			add(hop{tok: fmt.Sprintf("w:%s", keyNum(sr.key)), inv: sr.inv, resp: sr.resp, obs: obs})
+		}
+		// two connections certainly holding the same key at the same time
+		for a := 0; a < len(wins); a++ {
+			for b := a + 1; b < len(wins); b++ {
+				wa, wb := wins[a], wins[b]
+				if wa.ok && wb.ok && wa.done && wb.done && wa.key == wb.key && wa.fResp < wb.sInv && wb.fResp < wa.sInv {
+					note("connections %d and %d both held key %s during [%d,%d]", a, b, wa.key, max64(wa.fResp, wb.fResp), min64(wa.sInv, wb.sInv))
 				}
 			}
-		} else if sr.kind != "hang" {
-			note("caller for key %s got %s but no connection received the command", sr.key, sr.kind)
 		}
-	}
-	// direct oracle: two connections certainly holding the same key at the same time
-	for a := 0; a < nconn; a++ {
-		for b := a + 1; b < nconn; b++ {
-			wa, wb := wins[a], wins[b]
-			if wa.ok && wb.ok && wa.key == wb.key && wa.from < wb.until && wb.from < wa.until {
-				note("connections %d and %d both held key %s during [%d,%d]", a, b, wa.key, max64(wa.from, wb.from), min64(wa.until, wb.until))
+		for c, w := range wins {
+			if !w.refused {
+				continue
+			}
+			dup = true
+			if !w.closed {
+				note("refused connection %d was answered instead of closed", c)
+			}
+			possible := false
+			for c2, w2 := range wins {
+				if c2 != c && w2.ok && w2.key == w.key && w2.fInv <= w.fResp && (!w2.done || w.fInv <= w2.sResp) {
+					possible = true
+				}
+			}
+			if !possible {
+				note("connection %d refused for key %s although no connection could hold it during [%d,%d]", c, w.key, w.fInv, w.fResp)
 			}
 		}
-	}
-	for c, r := range conns {
-		if msg := lifeShape(s.Rec.Events(r.idx)); msg != "" {
-			note("connection %d callbacks: %s", c, msg)
+		for c, r := range conns {
+			evs := s.Rec.Events(r.idx)
+			if msg := lifeShape(evs); msg != "" {
+				note("connection %d callbacks: %s", c, msg)
+			}
+			for _, e := range evs[r.evSeen:] {
+				add(hop{tok: "extra", inv: now(), resp: now(), obs: "extra-" + evTok(c, e)})
+			}
+		}
+	} else {
+		// leave the shared server as clean as possible (the parent restarts the child anyway)
+		for _, r := range conns {
+			r.t.Close()
 		}
 	}
-	sort.SliceStable(res.hist, func(i, j int) bool { return res.hist[i].inv < res.hist[j].inv })
+	sort.SliceStable(hist, func(i, j int) bool { return hist[i].inv < hist[j].inv })
+	var items []string
+	for _, h := range hist {
+		o := h.obs
+		if o == "" {
+			o = "-"
+		}
+		items = append(items, fmt.Sprintf("%s@%d-%d=%s", h.tok, h.inv, h.resp, o))
+	}
+	res = opResult{Req: "reglin " + strings.Join(items, " "), Ans: "lin ok", Notes: notes, Stalled: stalled,
+		NT: dup || ncallers > 0}
+	res.Counts = append(res.Counts, fmt.Sprintf("conc:conns=%d", len(conns)))
+	if dup {
+		res.Counts = append(res.Counts, "conc:duplicate-refused")
+	}
+	for _, sr := range sends {
+		if sr.done {
+			res.Counts = append(res.Counts, "conc:send-"+sr.kind)
+		}
+	}
 	return res
 }
 
@@ -588,116 +927,137 @@ func min64(a, b int64) int64 {
 	return b
 }
 
+// ---------------------------------------------------------------- ops
+
+func atoi(s string) int { v, _ := strconv.Atoi(s); return v }
+
+func jsonOf(r opResult) string { b, _ := json.Marshal(r); return string(b) }
+
+func textOf(r opResult) string {
+	out := r.Ans
+	if strings.HasPrefix(r.Req, "reglin") {
+		out = "history: " + r.Req
+	}
+	if r.Stalled != "" {
+		out += " !! STALLED: " + r.Stalled
+	}
+	if len(r.Notes) > 0 {
+		out += " !! " + strings.Join(r.Notes, "; ")
+	}
+	return out
+}
+
+func adaptArgs(a []string) (int64, int, int, bool) {
+	seed, _ := strconv.ParseInt(a[0], 10, 64)
+	return seed, atoi(a[1]), atoi(a[2]), a[3] == "1"
+}
+
 func main() {
-	RegisterOp("regseq", func(a []string) string {
-		ans, notes := runSeq(a)
-		if len(notes) > 0 {
-			return ans + " !! " + strings.Join(notes, "; ")
-		}
-		return ans
+	// human / replay forms
+	RegisterOp("regseq", func(a []string) string { return textOf(runSeq(a)) })
+	RegisterOp("regadapt", func(a []string) string { // regadapt <seed> <steps> <nkeys> <emptykey 0|1>
+		r := runAdapt(adaptArgs(a))
+		return r.Req + " => " + textOf(r)
 	})
-	RegisterOp("regconc", func(a []string) string { // regconc <seed> <nconn> <nkeys> <ncallers>: direct oracle only
-		n := func(i int) int { v, _ := strconv.Atoi(a[i]); return v }
-		r := runConc(int64(n(0)), n(1), n(2), n(3))
-		return fmt.Sprintf("history=%d notes=%v", len(r.hist), r.notes)
+	RegisterOp("regconc", func(a []string) string { // regconc <seed> <nconn> <nkeys> <ncallers>
+		seed, _ := strconv.ParseInt(a[0], 10, 64)
+		return textOf(runConc(seed, atoi(a[1]), atoi(a[2]), atoi(a[3])))
 	})
+	// the same for the parent (JSON)
+	RegisterOp("xseq", func(a []string) string { return jsonOf(runSeq(a)) })
+	RegisterOp("xadapt", func(a []string) string { return jsonOf(runAdapt(adaptArgs(a))) })
+	RegisterOp("xconc", func(a []string) string {
+		seed, _ := strconv.ParseInt(a[0], 10, 64)
+		return jsonOf(runConc(seed, atoi(a[1]), atoi(a[2]), atoi(a[3])))
+	})
+	if ChildMode() {
+		ServeOps()
+		return
+	}
 	Main("C11", c11)
 }
 
-func c11(c *Ctx) {
-	c.Rule = "sequential scripts (regseq): random operation lists over <=5 connections, keys {1,2,3} plus the empty key and invalid keys, executed one operation at a time on a live server, observations compared token by token with the model; concurrent scripts (reglin): 2..8 connections x 1..3 keys x 0..4 callers with random timing, the recorded history must have a real-time-consistent linearisation that the model explains; a case is non-trivial when it contains a duplicate-key connect, a leave followed by a re-join, or a send; distinct = distinct request lines"
-	rng := c.Rng
-	nseq, nconc := 160, 220
-	if !c.Quick() {
-		nseq, nconc = 2500, 5000
-	}
-	// ---- fixed corpus of sequential scripts (the shapes the property names)
-	corpus := []string{
-		"c c f:0:7 f:1:7 s:1 w:7 s:0 w:7",           // duplicate refused, first keeps working, then leaves
-		"c f:0:7 s:0 c f:1:7 w:7 s:1",               // rejoin after leave
-		"c c f:0:1 f:1:2 s:0 w:1 w:2 s:1 w:2",       // leave frees only its own key
-		"c s:0 c b:1 b:1 f:1:3 m:1 w:3 s:1",         // never joined; invalid keys then join
-		"c c c f:0:5 f:1:5 s:1 f:2:5 s:2 s:0 w:5",   // two refusals
-		"c c f:0:0 s:1 w:0 s:0",                     // the empty key: the never-joined connection evicts it (model and code agree)
-		"w:9 c f:0:9 w:9 m:0 f:0:4 w:4 w:9 s:0 w:9", // message with another phone on a joined connection
-	}
-	for _, line := range corpus {
-		oneSeq(c, strings.Fields(line), "corpus")
-	}
-	// ---- random sequential scripts, generated adaptively (a refused connection ends at once)
-	for n := 0; n < nseq; n++ {
-		q := newSeqRun()
-		var toks, obs []string
-		steps := 4 + rng.Intn(22)
-		emptyKey := rng.Intn(12) == 0
-		nk := 1 + rng.Intn(3)
-		do := func(t string) []string {
-			toks = append(toks, t)
-			o := q.exec(t)
-			obs = append(obs, o...)
-			return o
+// ---------------------------------------------------------------- parent
+
+type parent struct {
+	c     *Ctx
+	bin   string
+	env   []string
+	ch    *Child
+	fatal int
+}
+
+func (p *parent) child() *Child {
+	if p.ch == nil || p.ch.Dead {
+		ch, err := StartChild(p.bin, p.env, 1<<16)
+		if err != nil {
+			panic(err)
 		}
-		for i := 0; i < steps; i++ {
-			nc := len(q.conns)
-			key := 1 + rng.Intn(nk)
-			if emptyKey && rng.Intn(3) == 0 {
-				key = 0
+		p.ch = ch
+	}
+	return p.ch
+}
+
+func replayForm(req string) string {
+	switch {
+	case strings.HasPrefix(req, "xseq "):
+		return "regseq " + req[5:]
+	case strings.HasPrefix(req, "xadapt "):
+		return "regadapt " + req[7:]
+	case strings.HasPrefix(req, "xconc "):
+		return "regconc " + req[6:]
+	}
+	return req
+}
+
+func panicHead(stderr string) string {
+	for _, mark := range []string{"panic:", "fatal error:"} {
+		if i := strings.Index(stderr, mark); i >= 0 {
+			return Trunc(strings.Join(strings.Fields(stderr[i:]), " "), 900)
+		}
+	}
+	return Trunc(strings.Join(strings.Fields(stderr), " "), 900)
+}
+
+// run executes one request in the child.  A crash is reported at once; a stall (a bounded wait
+// expired) is reported only when the same request stalls or crashes again in a fresh server.
+func (p *parent) run(req string) *opResult {
+	c := p.c
+	for attempt := 0; attempt < 2; attempt++ {
+		ch := p.child()
+		ans, st := ch.Ask(req, 4*(cmdTimeout+stallAfter))
+		var res opResult
+		problem := ""
+		switch st {
+		case "ok":
+			if err := json.Unmarshal([]byte(ans), &res); err != nil {
+				panic("child answered " + Trunc(ans, 300))
 			}
-			x := rng.Intn(100)
-			switch {
-			case nc == 0 || (x < 18 && nc < 5):
-				do("c")
-			case x < 50:
-				cn := rng.Intn(nc)
-				o := do(fmt.Sprintf("f:%d:%d", cn, key))
-				if len(o) == 1 && strings.HasSuffix(o[0], ":1") {
-					do(fmt.Sprintf("s:%d", cn))
-				}
-			case x < 56:
-				do(fmt.Sprintf("b:%d", rng.Intn(nc)))
-			case x < 64:
-				do(fmt.Sprintf("m:%d", rng.Intn(nc)))
-			case x < 80:
-				do(fmt.Sprintf("s:%d", rng.Intn(nc)))
-			default:
-				do(fmt.Sprintf("w:%d", key))
+			if res.Stalled == "" {
+				return &res
 			}
+			problem = "stalled: " + res.Stalled
+		case "crash":
+			p.fatal++
+			c.Violate(Violation{Signature: "C11/crash", What: "the server process died while the script ran",
+				Input: replayForm(req), Observed: panicHead(ch.Stderr()), Required: "no interleaving of joins, leaves and sends crashes the server; " + required})
+			c.Count("fatal:crash")
+			return nil
+		case "hang":
+			problem = "the child did not answer"
 		}
-		q.finish()
-		recordSeq(c, toks, obs, q.notes, emptyKey, "random")
+		ch.Kill()
+		if attempt == 0 {
+			c.Count("stall:first-occurrence")
+			continue
+		}
+		p.fatal++
+		c.Violate(Violation{Signature: "C11/stalled", What: "an operation did not complete (twice, in two fresh servers)",
+			Input: replayForm(req), Observed: problem + " | " + Trunc(res.Req, 1200), Required: "every join, leave and send completes; " + required})
+		c.Count("fatal:stalled")
+		return nil
 	}
-	// ---- concurrent scripts
-	for n := 0; n < nconc; n++ {
-		nconn, nkeys, ncallers := 2+rng.Intn(7), 1+rng.Intn(3), rng.Intn(5)
-		if nconn+ncallers > 10 {
-			ncallers = 10 - nconn
-		}
-		seed := rng.Int63n(1 << 40)
-		r := runConc(seed, nconn, nkeys, ncallers)
-		var items []string
-		dup, send := false, ncallers > 0
-		for _, h := range r.hist {
-			o := h.obs
-			if o == "" {
-				o = "-"
-			}
-			items = append(items, fmt.Sprintf("%s@%d-%d=%s", h.tok, h.inv, h.resp, o))
-			if strings.HasPrefix(o, "j:") && strings.HasSuffix(o, ":1") {
-				dup = true
-			}
-		}
-		req := "reglin " + strings.Join(items, " ")
-		c.Case(req, "lin ok", dup || send)
-		c.Count(fmt.Sprintf("conc:conns=%d", nconn))
-		if dup {
-			c.Count("conc:duplicate-refused")
-		}
-		for _, note := range r.notes {
-			c.Violate(Violation{Signature: "C11/" + noteClass(note), What: "registry property violated in a concurrent history",
-				Input: fmt.Sprintf("regconc %d %d %d %d", seed, nconn, nkeys, ncallers), Observed: note + " | history: " + Trunc(req, 1500),
-				Required: "at most one live owner per key; refused connection closed and told so; leave carries the connection's own key; commands go to the current owner; a key that is not online fails at once"})
-		}
-	}
+	return nil
 }
 
 func noteClass(n string) string {
@@ -710,62 +1070,99 @@ func noteClass(n string) string {
 		return "callbacks"
 	case strings.Contains(n, "ErrNotExistKey"):
 		return "not-exist"
-	case strings.Contains(n, "did not return"):
-		return "call-hangs"
-	case strings.Contains(n, "heartbeats"):
+	case strings.Contains(n, "heartbeats"), strings.Contains(n, "but the server closed it"):
 		return "owner-disturbed"
 	}
 	return "routing"
 }
 
-func recordSeq(c *Ctx, toks, obs, notes []string, emptyKey bool, what string) {
-	req := "regseq " + strings.Join(toks, " ")
-	ans := "ok"
-	dup, rejoin, send := false, false, false
-	left := map[string]bool{}
-	for _, o := range obs {
-		ans += " " + o
-		p := strings.Split(o, ":")
-		switch {
-		case p[0] == "j" && p[3] == "1":
-			dup = true
-		case p[0] == "l":
-			left[p[2]] = true
-		case p[0] == "j" && p[3] == "0" && left[p[2]]:
-			rejoin = true
-		case p[0] == "r" || p[0] == "n":
-			send = true
-		}
+func (p *parent) record(res *opResult, input string) {
+	c := p.c
+	if res == nil {
+		return
 	}
-	c.Case(req, ans, dup || rejoin || send)
-	c.Count(what + ":ops=" + strconv.Itoa(len(toks)/8*8) + "+")
-	if dup {
-		c.Count("seq:duplicate-refused")
+	c.Case(res.Req, res.Ans, res.NT)
+	for _, k := range res.Counts {
+		c.Count(k)
 	}
-	if rejoin {
-		c.Count("seq:rejoin-after-leave")
-	}
-	if emptyKey {
-		c.Count("seq:with-empty-key")
+	if res.EmptyKey {
 		return // outside the property's hypothesis (KeyFunc never yields ""): correspondence only
 	}
-	for _, note := range notes {
-		c.Violate(Violation{Signature: "C11/" + noteClass(note), What: "registry property violated in a sequential script",
-			Input: req, Observed: note + " | observations: " + ans,
-			Required: "at most one live owner per key; refused connection closed and told so; leave carries the connection's own key; commands go to the current owner; a key that is not online fails at once"})
+	for _, note := range res.Notes {
+		obs := note + " | " + Trunc(res.Req, 1500)
+		if strings.HasPrefix(res.Req, "regseq") {
+			obs = note + " | observations: " + res.Ans
+		}
+		c.Violate(Violation{Signature: "C11/" + noteClass(note), What: "registry property violated", Input: input,
+			Observed: obs, Required: required})
 	}
 }
 
-func oneSeq(c *Ctx, toks []string, what string) {
-	q := newSeqRun()
-	var obs []string
-	empty := false
-	for _, t := range toks {
-		obs = append(obs, q.exec(t)...)
-		if strings.HasPrefix(t, "f:") && strings.HasSuffix(t, ":0") {
-			empty = true
+func c11(c *Ctx) {
+	c.Rule = "sequential scripts (regseq): random operation lists over <=6 connections, keys {1,2,3} plus the empty key and invalid keys, connection ends by FIN / close / RST, executed one operation at a time on a live server, observations compared token by token with the model; concurrent scenarios (reglin): 2..8 connections (a third reconnect with the same key) x 1..3 keys x 0..4 callers with random timing on a server built with random delays at the channel operations of connection.go, the recorded history must have a real-time-consistent linearisation that the model explains; a case is non-trivial when it contains a duplicate-key connect, a leave followed by a re-join, or a send; distinct = distinct request lines"
+	rng := c.Rng
+	nseq, nconc := 700, 900
+	if !c.Quick() {
+		nseq, nconc = 12000, 20000
+	}
+	p := &parent{c: c}
+	// the child: this harness command rebuilt with the delay overlay (random Gosched/Sleep before every
+	// channel operation, close, join/leave call and socket write of connection.go)
+	outAbs, _ := filepath.Abs(c.Out)
+	bin, sites, err := BuildChild("C11", outAbs, "c11child", false)
+	if err != nil {
+		self, _ := os.Executable()
+		bin = self
+		c.Count("child:without-delay-overlay")
+		c.Extra["overlay_error"] = Trunc(err.Error(), 600)
+	} else {
+		c.Extra["delay_sites"] = len(sites)
+	}
+	p.bin = bin
+	p.env = []string{fmt.Sprintf("VERIF_DELAY_SEED=%d", c.Seed), "VERIF_DELAY_US=120", "VERIF_DELAY_P=25"}
+	defer func() {
+		if p.ch != nil {
+			p.ch.Stop(10 * time.Second)
+		}
+	}()
+	// ---- fixed corpus of sequential scripts (the shapes the property names)
+	corpus := []string{
+		"c c f:0:7 f:1:7 s:1 w:7 m:0 s:0 w:7",            // duplicate refused, first keeps working, then leaves
+		"c f:0:7 s:0 c f:1:7 w:7 s:1",                     // rejoin after leave
+		"c c f:0:1 f:1:2 s:0 w:1 w:2 s:1 w:2",             // leave frees only its own key
+		"c s:0 c b:1 b:1 f:1:3 m:1 w:3 s:1",               // never joined; invalid keys then join
+		"c c c f:0:5 f:1:5 s:1 f:2:5 s:2 s:0 w:5",         // two refusals
+		"c c f:0:0 s:1 w:0 s:0",                           // the empty key: the never-joined connection evicts it (model and code agree)
+		"w:9 c f:0:9 w:9 m:0 f:0:4 w:4 w:9 s:0 w:9",       // message with another phone on a joined connection
+		"c c f:0:3 f:1:3 s:1 sc:0 c f:2:3 w:3 sr:2 w:3",   // close and reset endings
+		"c c c f:0:1 f:1:2 f:2:1 s:2 w:1 w:2 s:1 w:1 w:2", // refusal between two owners
+	}
+	for _, line := range corpus {
+		req := "xseq " + line
+		p.record(p.run(req), replayForm(req))
+	}
+	// ---- random sequential scripts
+	for n := 0; n < nseq && p.fatal < 3; n++ {
+		empty := 0
+		if rng.Intn(12) == 0 {
+			empty = 1
+		}
+		req := fmt.Sprintf("xadapt %d %d %d %d", rng.Int63n(1<<40), 4+rng.Intn(22), 1+rng.Intn(3), empty)
+		res := p.run(req)
+		if res != nil {
+			p.record(res, res.Req) // the script as it was generated is its own replay
 		}
 	}
-	q.finish()
-	recordSeq(c, toks, obs, q.notes, empty, what)
+	// ---- concurrent scenarios
+	for n := 0; n < nconc && p.fatal < 3; n++ {
+		nconn, nkeys, ncallers := 2+rng.Intn(7), 1+rng.Intn(3), rng.Intn(5)
+		if nconn+ncallers > 10 {
+			ncallers = 10 - nconn
+		}
+		req := fmt.Sprintf("xconc %d %d %d %d", rng.Int63n(1<<40), nconn, nkeys, ncallers)
+		p.record(p.run(req), replayForm(req))
+	}
+	if p.fatal >= 3 {
+		c.Count("aborted-after-3-fatal")
+	}
 }
